@@ -21,4 +21,28 @@ CHECKS = {
         note="Trusted: Lean kernel; model L.parseTS / V.visitTs / V.addPrefix validated per case; spec T.denote/T.printSpec; recogniser T.parseTsTy; syn.",
         technique="Lean 4 theorems (L1 string round trip by mutual structural induction, L2 printer equality) + differential correspondence",
     ),
+    "C04": dict(
+        text="Unbounded proof that on every snake_case identifier the tool's default parameter key (serde camelCase field rule) equals the key "
+             "Tauri's macro expects (heck lowerCamel), plus the precedence rename > command rename_all > configured default; tied to the code by "
+             "per-case equality with the real NamingContext and the real heck crate.",
+        design_ref="DESIGN.md section 7.C04, Appendix D",
+        note="Trusted: Lean kernel; transcription of heck 0.5 on snake strings (checked per case against the crate); Tauri macro assumed = heck::to_lower_camel_case.",
+        technique="Lean 4 theorem (scan characterisation of heck + induction) + differential correspondence",
+    ),
+    "C06": dict(
+        text="Proof that struct-field keys equal serde's wire names for all 8 rules x all renames x all identifiers; for variants the proved part is the "
+             "agreeing rule set, the rest is shown false by kernel witnesses (known finding K06a). Attribute scanner: skip decision proved for all token lists; "
+             "tied to the real SerdeParser/StructParser/StructContext per case over the attribute item grammar.",
+        design_ref="DESIGN.md section 7.C06, Appendix G",
+        note="Trusted: Lean kernel; transcription of serde_derive case.rs; proc_macro2 token text observed per case.",
+        technique="Lean 4 theorems + kernel-evaluated witnesses + differential correspondence",
+    ),
+    "C11": dict(
+        text="Proof that the rendering stage reproduces every validator value exactly (bounds, email/url, message escaped so that it lexes back to the "
+             "same Unicode text, through Option/arrays, nothing without a validator); the scanning stage is a mirrored model tied per case to the real "
+             "ValidatorParser, with its failure classes recorded as known findings and witnessed in the kernel.",
+        design_ref="DESIGN.md section 7.C11, Appendix H",
+        note="Trusted: Lean kernel; canonical-decimal model of f64 Display (<=15 significant digits); JS string lexer; proc_macro2 token text observed per case.",
+        technique="Lean 4 theorems (escape round trip, chain exactness) + differential correspondence",
+    ),
 }
